@@ -3,7 +3,10 @@ pub mod config;
 pub mod workers;
 
 use std::sync::Arc;
+#[cfg(not(aquatic_verif))]
 use std::thread::{sleep, Builder, JoinHandle};
+#[cfg(aquatic_verif)]
+use aquatic_verif_rt::thread::{sleep, Builder, JoinHandle};
 use std::time::Duration;
 
 use anyhow::Context;
@@ -11,7 +14,12 @@ use aquatic_common::rustls_config::create_rustls_config;
 use aquatic_common::{ServerStartInstant, WorkerType};
 use arc_swap::ArcSwap;
 use glommio::{channels::channel_mesh::MeshBuilder, prelude::*};
+#[cfg(not(aquatic_verif))]
 use signal_hook::{consts::SIGUSR1, iterator::Signals};
+#[cfg(aquatic_verif)]
+use signal_hook::consts::SIGUSR1;
+#[cfg(aquatic_verif)]
+use aquatic_verif_rt::signal::Signals;
 
 use aquatic_common::access_list::update_access_list;
 use aquatic_common::privileges::PrivilegeDropper;
